@@ -65,7 +65,7 @@ func (c *Chain) Oracle(s *Snap) {
 	}
 	sum.Add(sum, stakes)
 	if sum.Cmp(bi(s.Total)) != 0 {
-		c.fail("C04:total-supply-mismatch"+c.why(c.Wrapped, "-after-mint-wrap")+c.why(c.GenesisDup, "-genesis-duplicate-entry")+c.why(c.GenesisImport, "-genesis-import")+c.why(c.DexBatched, "-dex-batch"),
+		c.fail("C04:total-supply-mismatch"+c.why(c.Wrapped, "-after-mint-wrap")+c.why(c.GenesisDup, "-genesis-duplicate-entry")+c.why(c.GenesisImport, "-genesis-import")+c.why(c.DexBatched, "-dex-batch")+c.why(c.EthTraffic, "-rlp-v2"),
 			fmt.Sprintf("height %d: supply.Total=%d but accounts+pools+stakes=%s", s.Height, s.Total, sum))
 	}
 	// ---- C12: tallies
